@@ -3,7 +3,7 @@ ID = "C15"
 N_QUICK, N_THOROUGH = 3000, 150000
 RULE = ("P-cases: random operation sequences over {append k, take, reset, clear, len, num_taken, num_not_taken, reserved} on the real "
         "ItemPool with header_lines N in {0,1,2,3,5,40}; batch sizes aimed at N-1,N,N+1; L-cases: the real SpinLock with 2..8 threads doing "
-        "a non-atomic read/yield/write increment. non-trivial = >= 2 appends and >= 2 takes (P) or >= 2 threads (L); distinct by sha1")
+        "a non-atomic read/yield/write increment; X-cases: one thread appending 2 000..6 000 items in chunks of 1..3 while another thread loops on num_taken()/take(): every item must be handed out exactly once, in order, at its own index. non-trivial = >= 2 appends and >= 2 takes (P) or >= 2 threads (L); distinct by sha1")
 ASSUMPTIONS = ["atomics are sequentially consistent (orderings extracted from source and table-checked; weak-memory reorderings below that are not modelled)",
                "pool operations are atomic because each holds the pool lock for its whole body (lock theorem) — the trait-level reasoning is by reading item.rs"]
 TRUSTED = ["tools/extractors/spinlock.py (regex over the two CAS loops of spinlock.rs and the atomics of impl ItemPool; fails closed)"]
@@ -13,7 +13,10 @@ def gen(rng, tier, n):
     nl = 6 if tier == "quick" else 40
     for i in range(nl):
         yield "L|%d|%d" % (rng.randint(2, 8), rng.choice([500, 2000, 5000]))
-    for i in range(n - nl):
+    for i in range(nl):
+        # appends on one thread overlapping takes on another (the matcher's `num_taken(); take()`)
+        yield "X|%d|%d" % (rng.choice([2000, 4000, 6000]), rng.choice([1, 1, 2, 3]))
+    for i in range(n - 2 * nl):
         N = rng.choice([0, 0, 1, 2, 3, 5, 40])
         ops = []
         for _ in range(rng.randint(1, rng.choice([4, 10, 30, 80]))):
@@ -35,6 +38,8 @@ def gen(rng, tier, n):
 def nontrivial(case):
     if case.startswith("L|"):
         return int(case.split("|")[1]) >= 2
+    if case.startswith("X|"):
+        return True
     ops = case.rsplit("|", 1)[1].split()
     return len([o for o in ops if o.startswith("a:")]) >= 2 and ops.count("t") >= 2
 
@@ -42,6 +47,8 @@ def nontrivial(case):
 def histogram_keys(case):
     if case.startswith("L|"):
         return ["lock"]
+    if case.startswith("X|"):
+        return ["append-overlapping-take"]
     hd, ops = case.rsplit("|", 1)
     ops = ops.split()
     return ["N=" + hd.split("|")[1]] + sorted(set(o.split(":")[0] for o in ops))
